@@ -205,6 +205,64 @@ def check_whenseq(rep, tier, strats, prop):
                             "expected": p["expected"]})
 
 
+# ------------------------------------------------------------------------------------------------ C05 / C07: ExecSeq.tla
+
+def check_execseq(rep, tier):
+    """sequential submission histories over the real executors with reused job objects"""
+    exe = core.build_harness()
+    wd = core.workdir("ExecSeq")
+    cfg = "ExecSeq_%s.cfg" % tier
+    progs, r = tlc_programs(rep, wd, "ExecSeq.tla", cfg, tag="EPROG", what="executor submission histories (%s)" % cfg)
+    for inv in r.violated:
+        rep.violation("%s/model/ExecSeq" % inv, "TLC: %s violated in ExecSeq.tla (%s)" % (inv, cfg), {"tlc_cfg": cfg, "tlc_trace": r.out[-3000:]})
+    if not progs:
+        raise MachineryError("TLC printed no executor histories for %s" % cfg)
+
+    def line(p):
+        return " ".join("D" if e == "D" else e + j for e, j in p["prog"])
+    chunk = 5000
+    bad = {}
+    ran = 0
+    for c0 in range(0, len(progs), chunk):
+        part = progs[c0:c0 + chunk]
+        rc, out, err = core.sh([exe, "exec"], stdin="\n".join(line(p) for p in part) + "\n", timeout=900)
+        got = {}
+        for ln in out.splitlines():
+            if " " in ln:
+                i, rest = ln.split(" ", 1)
+                try:
+                    got[int(i)] = dict(kv.split("=", 1) for kv in rest.split(";") if "=" in kv)
+                except ValueError:
+                    pass
+        ran += len(got)
+        for i, p in enumerate(part):
+            g = got.get(i)
+            execs = "".join(sorted({e for e, j in p["prog"] if e != "D"}))
+            if g is None:
+                if i == len(got):
+                    bad.setdefault("crash/execseq/%s" % execs, []).append((p, None, "the process died (exit %s) while executing this history" % rc))
+                continue
+            e_calls = ",".join(str(p["calls"][k]) for k in ("1", "2", "3"))
+            e_drops = ",".join(str(p["drops"][k]) for k in ("1", "2", "3"))
+            e_log = ",".join(k + j for k, j in p["log"])
+            if g.get("calls") != e_calls or g.get("drops") != e_drops:
+                bad.setdefault("calls/execseq/%s" % execs, []).append(
+                    (p, g, "jobs were called %s / dropped %s times, expected %s / %s" % (g.get("calls"), g.get("drops"), e_calls, e_drops)))
+            elif g.get("log") != e_log:
+                bad.setdefault("order/execseq/%s" % execs, []).append((p, g, "order of calls and drops %s, expected %s" % (g.get("log"), e_log)))
+    for key, lst in sorted(bad.items()):
+        p, g, msg = min(lst, key=lambda x: len(x[0]["prog"]))
+        rep.violation(key, "%s (%d histories of this cell; smallest: %s)" % (msg, len(lst), line(p)),
+                      {"kind": "execseq", "program": line(p), "expected": {k: p[k] for k in ("calls", "drops", "log")}, "got": g})
+    rep.executions += len(progs)
+    rep.traces += ran
+    rep.extra["executor_histories"] = rep.extra.get("executor_histories", 0) + len(progs)
+    if progs and len(rep.samples) < 6:
+        p = progs[len(progs) // 2]
+        rep.samples.append({"kind": "executor history enumerated by TLC and executed on the real executors", "program": line(p),
+                            "expected": {k: p[k] for k in ("calls", "drops", "log")}})
+
+
 # ------------------------------------------------------------------------------------------------ C19: Atomic.tla
 
 ATOMIC_KINDS = [
